@@ -10,6 +10,9 @@ require (
 	pgregory.net/rapid v1.3.0
 )
 
-require golang.org/x/sys v0.23.0 // indirect
+require (
+	github.com/DataDog/zstd v1.5.6 // indirect
+	golang.org/x/sys v0.23.0 // indirect
+)
 
 replace github.com/mimecast/dtail => /repo
